@@ -452,6 +452,9 @@ where
             };
             check_step(ctx, &rt, &rec1, c.eps, c.l, &tol, Some(&vec![0.5; c.n]), &case, f32_backend);
             ctx.state(hash_str(&case.to_string()));
+            if c.n <= 2 && c.l > 0 {
+                ctx.sample_tagged("one HMC step", || json!({"input": case.clone(), "previous": rec1.prev, "recorded_proposal": rec1.proposed, "recorded_H_minus_Hprime": jfs(&rec1.accept_logp), "recorded_ln_u": jfs(&rec1.ln_u), "after": rec1.after}));
+            }
             // pass 2: uniforms at the decision boundary of each row
             let mut u_sets: Vec<Vec<f64>> = vec![vec![1e-30; c.n], vec![if f32_backend { 1.0 - 2f64.powi(-24) } else { 1.0 - 2f64.powi(-53) }; c.n]];
             for shift in [-1i32, 0, 1] {
@@ -577,7 +580,6 @@ pub fn run(ctx: &Ctx) {
     if only != "f32" {
         run_backend::<f64, BF64>(ctx, "f64 / NdArray<f64>", false);
     }
-    ctx.sample(json!({"step": {"target": "Rosenbrock2D", "eps": 0.1, "L": 3, "n_chains": 2, "momentum": [[0.5, -2.0], [0.0, 2.0]], "uniform": ["exp(H-H')", "next f32 above it"]}}));
     ctx.assume("draws are injected through the verif taps 'hmc.momentum' / 'hmc.uniform' (use of the injected values is verified through the recorded tensors; failure = exit 2)");
     ctx.assume("numerics tolerance: f64 backend 1e-10*scale*(L+1), f32 backend 2e-5*scale*(L+1); trajectories whose reference magnitude exceeds 1e6 are compared on decision logic only (counted)");
     if ctx.outcome_count("accept") == 0 || ctx.outcome_count("reject") == 0 || ctx.outcome_count("reversibility-ok") == 0 {
